@@ -451,11 +451,42 @@ def run_history(ctx, idx, rng, tmp):
                     read_before[f] = "changed"
             elif r < 0.48:
                 arr = rng.normal(size=n)
-                dclab.set_temporary_feature(ds, "vmon_t1", arr)
+                via = None
+                if chain and rng.random() < 0.6 and all(len(c_) == n for c_ in chain):
+                    # the documented way for hierarchy members: set it through a member
+                    # (which stores it in the root); a feature computed from it and read
+                    # through the same member before must follow - without another refresh
+                    via = int(rng.integers(0, len(chain)))
+                    probe_feat = "vmon_plugin"
+                    try:
+                        _ = np.asarray(chain[via][probe_feat])
+                    except Exception:
+                        pass
+                    dclab.set_temporary_feature(chain[via], "vmon_t1", arr)
+                else:
+                    dclab.set_temporary_feature(ds, "vmon_t1", arr)
                 temp["vmon_t1"] = arr
-                hist.append(["temp", "vmon_t1"])
+                hist.append(["temp", "vmon_t1"] + ([f"via hierarchy level {via + 1}"]
+                                                   if via is not None else []))
                 for f in read_before:
                     read_before[f] = "changed"
+                if via is not None:
+                    twin = build(kind, data, {s_: dict(kv) for s_, kv in cfg.items()}, temp, tmp,
+                                 idx)
+                    for s_, k_ in deleted:
+                        if k_ in twin.config[s_]:
+                            del twin.config[s_][k_]
+                    try:
+                        tch = dclab.new_dataset(twin)
+                        for _ in range(via):
+                            tch = dclab.new_dataset(tch)
+                        hist.append(["read", "vmon_plugin", f"hierarchy level {via + 1} "
+                                                            f"(no refresh after the assignment)"])
+                        judge_read(ctx, chain[via], tch, "vmon_plugin", hist, eff_cfg(), data,
+                                   data.get("area_um"))
+                        ctx.count("temp_feature_set_through_hierarchy_member")
+                    finally:
+                        twin.close()
             elif r < 0.56:
                 if child is None:
                     # a chain of 1-3 hierarchy members below the dataset
